@@ -13,21 +13,21 @@ T = {
          'all key classes x origins x protection flags x secret attributes x buffer sizes are executed; protected values are known to the driver and searched in every output of every call; a two-process scenario (another process protects a key this process has used) on both back-ends',
          'verbatim substring scan (>= 8 bytes); encoded leaks are out of reach', '3/C02'),
  'C03': ('walker', MC, 'explicit-state enumeration of the reference model; every (abstract state, symbol) edge replayed on the real library and compared via C_GetSessionInfo on every session',
-         'the abstract session/login state graph of the model is enumerated breadth-first up to the stated session bound and every edge is executed against the real library from a fresh token directory; random long walks beyond the bound',
+         'the abstract session/login state graph of the model is enumerated breadth-first up to the stated session bound and every edge is executed against the real library from a fresh token directory; random long walks beyond the bound; plus a fault lane: 19 (login state, call) pairs repeated with the k-th file-system operation of the call failing, for every k (a failed call leaves every session as it was)',
          'abstraction = (login state and user-PIN presence per token, multiset of (token, RW) sessions); the model is the trusted base', '3/C03'),
  'C04': ('walker', EX, 'lock-step PIN model + independent at-rest decoder of the PIN blobs',
-         'histories of InitToken/InitPIN/SetPIN/Login/restart with hostile PIN alphabets; the model predicts exactly which byte string authenticates; an independent decoder checks both PIN blobs unwrap the same master key',
+         'histories of InitToken/InitPIN/SetPIN/Login/restart with hostile PIN alphabets; the model predicts exactly which byte string authenticates; an independent decoder checks both PIN blobs unwrap the same master key; a sweep of failing file-system operations under PIN changes runs as an observation lane (outside the quantifier, never judged)',
          'a wrong PIN is accepted by chance with p~2^-32 per attempt; such a hit is retried before being reported', '3/C04'),
  'C05': ('walker+faults', EX, 'persistence model compared after restarts, independent on-disk decoders, golden fixtures, FS fault injection by interposition',
          'object histories with restarts in-process and in new processes; golden token directories written by the pinned version; every FS operation of create/set/destroy/copy failed in turn',
          'durability against process restart, not power loss (the library never fsyncs)', '3/C05'),
  'C06': ('walker', EX, 'raw scan of the token directory for recorded plaintexts + independent decryption of every stored blob + permission monitor',
-         'every store path x class x byte-string attribute; plaintext values are unique random strings searched in all files after each step; IV uniqueness; stat() of every path against the configured umask',
+         'every store path x class x byte-string attribute; plaintext values are unique random strings searched in all files after each step; IV uniqueness; stat() of every path against the configured umask; application-supplied check values; every private object in the directory decrypted whether or not the API can read it; permission bits after a re-initialisation with a changed umask',
          'verbatim scan; nested template entries are excluded as the property says', '3/C06'),
  'C07': ('tables', EX, 'exhaustive table enumeration against a coarse reference mechanism table, with positive controls',
-         'operation x key kind x usage flag x mechanism x allowed-list x slots.mechanisms configuration, every cell executed; plus usage flags cleared by another process (both back-ends)', 'family-level notion of "fits"', '3/C07'),
+         'operation x key kind x usage flag x mechanism x allowed-list x slots.mechanisms configuration, every cell executed; plus usage flags cleared by another process (both back-ends); half of the restricted-configuration jobs in a process that first worked unrestricted and was re-initialised after softhsm2.conf changed', 'family-level notion of "fits"', '3/C07'),
  'C08': ('tables', EX, 'attribute-policy model compared by re-reading all attributes after every accepted/rejected template',
-         'class x attribute x operation cells and flag histories; effects checked by re-reading, history attributes derived from the recorded provenance; one-way changes made by another process cannot be undone (both back-ends)', 'read-only set taken from PKCS#11 v2.40 tables', '3/C08'),
+         'class x attribute x operation cells and flag histories; effects checked by re-reading, history attributes derived from the recorded provenance; one-way changes made by another process cannot be undone (both back-ends); object gates and one-way flags attacked from SO and public sessions as well', 'read-only set taken from PKCS#11 v2.40 tables', '3/C08'),
  'C09': ('faults', FE, 'snapshot/compare (API + independent directory decoder) around every failing call, incl. injected FS faults',
          'failing calls by construction over template positions, session states, mechanisms and wrapped blobs, plus every FS operation of each call kind failed in turn', 'generation counters / lock files / token flags are not objects', '3/C09'),
  'C10': ('cryptodiff', EX, 'differential testing against an independent implementation (nettle block primitives + standards written in Python), tamper and chunking monitors',
@@ -39,19 +39,19 @@ T = {
  'C13': ('cryptodiff', EX, 'differential wrap/unwrap/derive against the independent implementation + attribute model',
          'every wrap and derive mechanism x key types x lengths, malformed blobs with C09-style snapshots', 'refcrypt trusted', '3/C13'),
  'C14': ('walker', EX, 'per-token snapshot/compare monitor around every call, slot-id rule, softhsm2-util as an actor',
-         'histories over 2-3 tokens with init/re-init/util/restarts (stray entries in the token directory); every other token is snapshotted around every call; a directed non-interference table (one script on token A under five states of token B) and a two-process re-initialisation scenario', 'model trusted', '3/C14'),
+         'histories over 2-3 tokens with init/re-init/util/restarts (stray entries in the token directory); every other token is snapshotted around every call; a directed non-interference table (one script on token A under five states of token B) and a two-process re-initialisation scenario; fresh C_InitToken with every file-system operation failing in turn (tokens come from successful calls only, census after restart); two threads racing for the one free slot', 'model trusted', '3/C14'),
  'C15': ('conc', EX, 'offline history checker over per-process logs with unique written values; FS-level delays injected by interposition',
-         'enumerated call-granularity interleavings of 2-3 processes (file and db back-ends, handles tracked per object incarnation) plus concurrent runs, duels and observers with injected delays', 'concurrent runs, duels and observers: file back-end (the anchors); serialised interleavings: file and db', '3/C15'),
+         'enumerated call-granularity interleavings of 2-3 processes (file and db back-ends, handles tracked per object incarnation) plus concurrent runs, duels and observers with injected delays; after concurrent runs every process and a fresh one must read one value per object; runs with rare long stalls', 'concurrent runs, duels and observers: file back-end (the anchors); serialised interleavings: file and db', '3/C15'),
  'C16': ('faults', FE, 'crash-point enumeration by FS interposition (_exit before/after every FS operation, torn flushes) + recovery probe in a fresh process',
-         'every FS operation of every writing call kind is a crash point; recovery compares every object and PIN with the pre/post snapshots', 'process death, not power loss', '3/C16'),
+         'every FS operation of every writing call kind is a crash point; recovery compares every object and PIN with the pre/post snapshots; token flags old-or-new; every record-boundary prefix of a protected key file opened by a fresh process that tries to read and wrap the key', 'process death, not power loss', '3/C16'),
  'C17': ('fuzz', EX, 'ASan/UBSan + termination interposers under generated hostile API sequences and structure-aware file mutation',
          'hostile call sequences over all entry points, mutated object/token/config files and serialised multi-process interleavings; any sanitizer memory report, fatal signal, exit/abort or non-CKR return is a violation', 'a clean ASan run is not memory safety; crypto libraries are uninstrumented', '3/C17'),
  'C18': ('conc', EX, 'ASan + TSan builds under multi-threaded stress with yielding mutex callbacks; behavioural oracles (conservation, uniqueness, thread-local results) and a linearizability search against the model',
          'thread counts 2-16, seeds, both locking modes; data races keyed by racy location against a recorded baseline', 'schedules are sampled, not enumerated; no deterministic replay (no rr)', '3/C18'),
  'C19': ('walker', EX, 'lock-step search oracle: result multiset compared with model.visible ∩ matches for generated populations/templates/batch sizes',
-         'random populations on two tokens, templates incl. absent/wrong-sized/empty values, five session states, random batch-size sequences', 'typed equality as in the statement; CK_BBOOL values 0/1 only', '3/C19'),
+         'random populations on two tokens, templates incl. absent/wrong-sized/empty values, five session states, random batch-size sequences; searches for untouched objects while another process writes with slowed-down syncs (file and db)', 'typed equality as in the statement; CK_BBOOL values 0/1 only', '3/C19'),
  'C20': ('diff4', TV, 'differential execution of one generated program on {file,db} x {OpenSSL,Botan}',
-         'the same seeded programs (one process, and two processes sharing the token) run on four configurations; return codes, attributes and deterministic outputs compared field by field; randomised outputs cross-verified', 'restricted to mechanisms advertised by both crypto back-ends', '3/C20'),
+         'the same seeded programs (one process, and two processes sharing the token) run on four configurations; return codes, attributes and deterministic outputs compared field by field; randomised outputs cross-verified; concurrent programs of 3-4 processes each using only its own token objects, transcripts compared between configurations', 'restricted to mechanisms advertised by both crypto back-ends', '3/C20'),
 }
 READY = os.environ.get('READY')
 def main():
